@@ -22,6 +22,8 @@ func init() {
 		Assumptions: []string{"gokrb5's GetKDCs returns maps with 1-based keys (read in the dependency's source)"},
 		Rules: []RuleDef{
 			{"C20/validation", "forward only after POST, declared length <= 128 KiB, full body, DER without trailing bytes; 405/411/413/400 on the refusals; POST-only route", c20Validation},
+			{"C20/decode-fresh", "every request is decoded into a fresh message value (optional fields absent from the request are absent)", c20DecodeFresh},
+			{"C20/realm", "the KDC list is looked up for the realm the request names; the default realm only when it names none", c20Realm},
 			{"C20/faithful", "TCP: bytes written = decoded message; reply returned = bytes read by awaitReply; response = encode(reply); encode wraps exactly its argument", c20Faithful},
 			{"C20/bounded-io", "every KDC connection gets a constant deadline before its first write", c20BoundedIO},
 			{"C20/answers", "no undischarged bounds obligation in the proxy; every channel receive has a started sender", c20Answers},
@@ -478,4 +480,74 @@ func c20UDPRead(c *Ctx) {
 		c.Check(ok, rule, "awaitReply ReadAll", ci.Pos(), "read-until-EOF only on stream sockets", "io.ReadAll is applied to UDP sockets too: a datagram socket never reports EOF, so the read ends with the deadline error and a reply that did arrive is discarded as 'no reply' (and the 1-byte length prefix added afterwards is not the 4-byte prefix of a kerb-message)")
 	}
 	c.Floor(rule, 1, "ReadAll in awaitReply")
+}
+
+// c20DecodeFresh: asn1.Unmarshal leaves absent optional fields untouched, so decoding into a reused
+// object carries the realm of an earlier request into a request that names none.
+func c20DecodeFresh(c *Ctx) {
+	rule := "C20/decode-fresh"
+	d := c.Fn("cmd/rdpgw/kdcproxy", "decode")
+	n := 0
+	for _, ci := range callsIn(d) {
+		if !strings.HasSuffix(calleeName(ci), "asn1.Unmarshal") {
+			continue
+		}
+		n++
+		dst := strip(arg(ci, 1))
+		al, ok := dst.(*ssa.Alloc)
+		good := ok && al.Parent() == d && !inCycle(al.Block())
+		if good {
+			// nothing but the decoder writes it before
+			for _, r := range *al.Referrers() {
+				if st, ok := r.(*ssa.Store); ok && st.Addr == ssa.Value(al) {
+					if _, isC := st.Val.(*ssa.Const); !isC {
+						good = false
+					}
+				}
+			}
+		}
+		c.Check(good, rule, "decode destination", ci.Pos(), "a fresh local message per call", "decode unmarshals into an object that is not fresh for this call (pooled, global or pre-filled): optional fields absent from this request keep values of an earlier one")
+	}
+	if n == 0 {
+		c.Undecided(rule, "decode Unmarshal", d.Pos(), "no asn1.Unmarshal in decode")
+	}
+}
+
+// c20Realm: forward asks the Kerberos configuration for the KDCs of the realm it was given, or of
+// the default realm only when the request names none.
+func c20Realm(c *Ctx) {
+	rule := "C20/realm"
+	fn := c.Fn("cmd/rdpgw/kdcproxy", "KerberosProxy.forward")
+	realmP := fn.Params[1]
+	isRealm := func(v ssa.Value) bool { return strip(v) == ssa.Value(realmP) }
+	isEmpty := func(v ssa.Value) bool { s, ok := constString(v); return ok && s == "" }
+	n := 0
+	for _, ci := range callsIn(fn) {
+		if !strings.HasSuffix(calleeName(ci), "config.Config).GetKDCs") {
+			continue
+		}
+		n++
+		good := true
+		why := ""
+		for _, o := range c.originsDeep(arg(ci, 0), 0) {
+			switch {
+			case o.Kind == "param" && o.Value == ssa.Value(realmP):
+			case o.Kind == "field" && o.Field.Name() == "DefaultRealm":
+				in, ok := o.Value.(ssa.Instruction)
+				if !ok || in.Parent() != fn {
+					good, why = false, "the default realm is chosen outside forward's own empty-realm test"
+					break
+				}
+				if okg, w := mustPass(fn, in, GEq(isRealm, isEmpty)); !okg {
+					good, why = false, "the default realm is used "+w+" of realm == \"\""
+				}
+			default:
+				good, why = false, "realm is "+o.String()
+			}
+		}
+		c.Check(good, rule, fmt.Sprintf("forward GetKDCs#%d realm", n), ci.Pos(), "KDCs of the request's realm (default realm only for an empty one)", "the KDC list is not looked up for the realm the request names: "+why+": a request is relayed to another realm's KDCs")
+	}
+	if n < 2 {
+		c.Undecided(rule, "forward GetKDCs", fn.Pos(), "found %d GetKDCs calls (udp and tcp expected)", n)
+	}
 }
